@@ -47,36 +47,41 @@ def plan_order(plans):
 # ----------------------------------------------------------------------------- work items
 
 def items():
+    """Work items.  The quick set (flag 0) is part of every tier, so the example kept for a violation group
+    (smallest rank, flag first) is the same in quick and thorough; thorough adds flag-1 items."""
     scripts = _load()
     thorough = core.TIER == "thorough"
     out = []
-    nsh = 8 if thorough else 2
+    plans = scripts.load_plans()
     for verb in scripts.VERBS:
-        # (kind, verb, depth, small alphabet?, quick-set flag, shard, nshards)
+        # (kind, verb, depth, alphabet, flag, shard, nshards)
         out.append(("bare", verb, 1, False, 0, 0, 1))
-        for s in range(nsh):
-            out.append(("bare", verb, 2, not thorough, 0 if not thorough else 1, s, nsh))
-        if thorough:
-            for s in range(4):
-                out.append(("bare", verb, 3, "tiny", 1, s, 4))
+        for s in range(2):
+            out.append(("bare", verb, 2, True, 0, s, 2))
     for verb, cmds in scripts.CORPUS.items():
         for ci in range(len(cmds)):
             out.append(("mut", verb, ci, False, 0, 0, 1))
             out.append(("pre", verb, ci, False, 0, 0, 1))
-            if thorough:
-                out.append(("pre2", verb, ci, "tiny", 1, 0, 1))
     out.append(("ctx", "", 0, False, 0, 0, 1))
-    plans = scripts.load_plans()
-    names = plan_order(list(plans)) if thorough else QUICK_PLANS
-    for pi, name in enumerate(names):
+    plan_items = [(name, 0) for name in QUICK_PLANS]
+    # (frames, max frames with an `under`, flag, shards)
+    graphs = [(2, None, 0, 4), (3, 1, 0, 16)]
+    if thorough:
+        for verb in scripts.VERBS:
+            for s in range(8):
+                out.append(("bare", verb, 2, False, 1, s, 8))
+            for s in range(4):
+                out.append(("bare", verb, 3, "tiny", 1, s, 4))
+        for verb, cmds in scripts.CORPUS.items():
+            for ci in range(len(cmds)):
+                out.append(("pre2", verb, ci, "tiny", 1, 0, 1))
+        plan_items += [(name, 1) for name in plan_order(list(plans)) if name not in QUICK_PLANS]
+        graphs += [(3, None, 1, 64), (4, 1, 1, 64)]
+    for pi, (name, flag) in enumerate(plan_items):
         nlines = len(plans[name].split("\n"))
         step = 12
         for lo in range(0, nlines, step):
-            out.append(("plan", name, pi, True, 0 if name in QUICK_PLANS else 1, lo, lo + step))
-    # (frames, max frames with an `under`, quick-set flag, shards)
-    graphs = [(2, None, 0, 4), (3, 1, 0, 16)]
-    if thorough:
-        graphs += [(3, None, 1, 64), (4, 1, 1, 64)]
+            out.append(("plan", name, pi, True, flag, lo, lo + step))
     for nn, mu, qf, nshard in graphs:
         for s in range(nshard):
             out.append(("links", mu, nn, False, qf, s, nshard))
@@ -169,14 +174,14 @@ def work(item):
             if i % nshards != shard:
                 continue
             ntok = len(scripts.tokenize_line(line)[1])
-            J.judge((grank, qflag, ntok, line), "%s: %s" % (slot, line), scripts.scaffold(line),
+            J.judge((qflag, grank, ntok, line), "%s: %s" % (slot, line), scripts.scaffold(line),
                     extra_files=scripts.LOADED)
     elif kind == "ctx":
         for verb, cmds in scripts.CORPUS.items():
             for c in cmds:
                 for slot in ("HOUSE", "EMPTY"):
                     ntok = len(scripts.tokenize_line(c)[1])
-                    J.judge((3, 0, ntok, c), "%s: %s" % (slot, c), scripts.scaffold(c, slot),
+                    J.judge((0, 3, ntok, c), "%s: %s" % (slot, c), scripts.scaffold(c, slot),
                             extra_files=scripts.LOADED)
     elif kind == "plan":
         _, name, pi, small, qflag, lo, hi = item
@@ -185,7 +190,7 @@ def work(item):
         for lineno, ti, op, text, mline in scripts.gen_plan_mutations(plans[name], al):
             if not (lo < lineno <= hi):
                 continue
-            J.judge((4, qflag, pi, lineno, ti, op), "%s:%d[%d] %s: %s" % (name, lineno, ti, op, mline), text,
+            J.judge((qflag, 4, pi, lineno, ti, op), "%s:%d[%d] %s: %s" % (name, lineno, ti, op, mline), text,
                     replay_extra=dict(plan=name, line=lineno, token=ti, op=op,
                                       how="replace line %d of ioflo/app/plan/%s by `%s` and build it" % (lineno, name, mline)),
                     extra_files=plans, name=os.path.join(scripts.PLAN_DIR, name), metas=name in scripts.META_PLANS)
@@ -194,11 +199,11 @@ def work(item):
         for i, (label, text) in enumerate(scripts.gen_link_graphs(n, mu)):
             if i % nshards != shard:
                 continue
-            J.judge((5, qflag, n, 0 if mu is not None else 1, len(label), label), label, text)
+            J.judge((qflag, 5, n, 0 if mu is not None else 1, len(label), label), label, text)
     elif kind == "firstnext":
         n = item[2]
         for label, text in scripts.gen_first_next_graphs(n):
-            J.judge((6, 0, n, len(label), label), label, text)
+            J.judge((0, 6, n, len(label), label), label, text)
     J.p.extra["found"] = J.found
     return J.p
 
